@@ -23,7 +23,7 @@ def run(ctx):
     if tier != "quick":
         refs += [D(2024, m, d) for m in (1, 5, 10) for d in (29, 30, 31) if d <= calendar.monthrange(2024, m)[1]]
     prefs = ["current", "first", "last"]
-    today = D.today()
+    today = D.today().replace(hour=12, minute=0, second=0, microsecond=0)
     cases = []
     for y in years:
         ys = "%04d" % y
@@ -56,6 +56,11 @@ def run(ctx):
                                   "expect": expect_str(D(y, m, d), period="day"), "stratum": "full/abs"})
                     cases.append({"s": "%d %s %s 10:30" % (d, MONTHS[m - 1], ys), "langs": ["en"], "settings": dict(st, RETURN_TIME_AS_PERIOD=True),
                                   "expect": expect_str(D(y, m, d, 10, 30), period="time"), "stratum": "full+time/abs"})
+    # the custom-format parser reads the system clock for what a format does not state: run those cases under a controlled clock (today at noon),
+    # so that a run which crosses midnight cannot disagree with the expectation computed at its start
+    for c_ in cases:
+        if "today" in c_ and c_.get("clock") is None:
+            c_["clock"] = c_["today"]
     res = decide(ctx, cases, model_share=1.0)
     res["assumptions"] = ["the system clock does not cross midnight during the run (custom-format 'current' day)",
                           "English month names are translated to themselves by the `en` locale (checked by the model tie)"]
